@@ -345,6 +345,42 @@ func checkC09(w *World, c *Check, tier string) {
 	}
 	c.ok("C09.nopanic", "scan", "-", fmt.Sprintf("%d interface-to-interface comparisons of items in the package", ncmp))
 
+	// ---- dispatch by Go type: a transitive activity is compared as an activity whatever its type NAME says. The
+	// generic name "Activity" (what {"type":"Activity"} decodes to) and the empty name are in none of the type tables, so
+	// a dispatch on the name alone compares such values as plain objects: a copy with another actor or object stays equal ----
+	if actEq := w.Method("Activity", "Equals"); actEq != nil {
+		pa := types.NewPointer(w.Named("Activity"))
+		for _, tv := range []string{"Create", "Activity", ""} {
+			ip := newInterp(w)
+			reached := false
+			ip.onCall = func(ev callEvent) {
+				if ev.Callee == actEq {
+					reached = true
+				}
+			}
+			ip.postCall = func(callee *ssa.Function, args []AV, res AV) AV {
+				if callee.Name() == "GetType" && len(args) == 1 {
+					return AV{K: kConst, C: constant.MakeString(tv), T: w.Named("ActivityVocabularyType")}
+				}
+				return res
+			}
+			ip.stopAt = func(f *ssa.Function) bool {
+				return f.Name() == "Equals" && f.Signature.Recv() != nil
+			}
+			av := avIface(pa, avNonNilPtr(pa))
+			ip.Call(itemsEqual, []AV{av, av}, nil, Store{}, nil)
+			key := fmt.Sprintf("activity-by-go-type:%q", tv)
+			switch {
+			case ip.aborted != "":
+				c.bad("C09.dispatch", key, w.FuncPos(itemsEqual), "undecided: "+ip.aborted)
+			case !reached:
+				c.bad("C09.dispatch", key, w.FuncPos(itemsEqual), fmt.Sprintf("for two *Activity values whose type name is %q ItemsEqual never reaches Activity.Equals: they are compared as plain objects, so a copy that differs only in actor, object, target, result, origin or instrument compares equal", tv))
+			default:
+				c.ok("C09.dispatch", key, w.FuncPos(itemsEqual), "Activity.Equals is reached")
+			}
+		}
+	}
+
 	// ---- setloop ----
 	checkSetLoops(w, c, "C09.setloop", []string{"NaturalLanguageValues", "ItemCollection", "IRIs"})
 
